@@ -189,7 +189,8 @@ def _char_class_excluding(chars):
         if c > lo:
             rs.append(z3.Range(chr(lo), chr(c - 1)))
         lo = c + 1
-    rs.append(z3.Range(z3.StringVal(chr(lo)), z3.Unit(z3.CharVal(0x10FFFF))))
+    # top of the solvers' character domain (SMT-LIB: 0x2FFFF), written so that z3 and cvc5 read it alike
+    rs.append(z3.Range(z3.StringVal(chr(lo)), z3.StringVal('\U0002FFFF')))
     return z3.Union(*rs) if len(rs) > 1 else rs[0]
 
 
